@@ -20,6 +20,18 @@ func init() {
 		o.pinValue13("internal/core/compile", "matchNBuiltin", "pin_compile_matchNBuiltin")
 		o.pinValue13("internal/core/compile", "matchIfBuiltin", "pin_compile_matchIfBuiltin")
 		o.pins("internal/core/compile", "checkNum", "finalizeSelf")
+		// hand-transcribed by Model/JsonSchemaCC.lean (session 3): the per-keyword builders of the
+		// number / string / array families, constValue, the helpers they go through, schemaState
+		// (phases, bool schemas) and the phase table
+		o.pins("encoding/jsonschema",
+			"constraintMinimum", "constraintMaximum", "constraintExclusiveMinimum", "constraintExclusiveMaximum",
+			"constraintMultipleOf", "constraintMinLength", "constraintMaxLength", "constraintPattern",
+			"constraintMinItems", "constraintMaxItems", "constraintUniqueItems", "constraintMinContains",
+			"constraintMaxContains", "constraintContains", "constraintItems", "constraintPrefixItems",
+			"setAdditionalItems", "constraintIf", "constraintThen", "constraintElse",
+			"state.constValue", "state.schemaState", "state.schema", "isTop", "isErrorCall", "top",
+			"decoder.number", "decoder.uint", "uint64Value", "decoder.regexpValue")
+		o.pinValue13("encoding/jsonschema", "constraints", "pin_jsonschema_constraints")
 	}
 }
 
